@@ -1,6 +1,9 @@
 package c11
 
 import (
+	"bytes"
+	"crypto/hmac"
+	"crypto/sha256"
 	"encoding/base64"
 	"encoding/hex"
 	"fmt"
@@ -131,7 +134,7 @@ func genChain(t *rapid.T) chainCase {
 	c.Secret = genSecret(t, "secret")
 	c.Secret2 = append([]byte{0x77}, genSecret(t, "secret2")...)
 	if rapid.Bool().Draw(t, "hasreq") {
-		nr := rapid.SampledFrom([]int{16, 20, 32, 64}).Draw(t, "reqlen")
+		nr := rapid.SampledFrom([]int{16, 20, 32, 64, 65, 200}).Draw(t, "reqlen")
 		c.ReqMAC = rapid.SliceOfN(rapid.Byte(), nr, nr).Draw(t, "reqmac")
 	}
 	c.Fudge = rapid.Uint16Range(16, 65535).Draw(t, "fudge")
@@ -143,4 +146,122 @@ func genChain(t *rapid.T) chainCase {
 
 func init() {
 	pbt.Register(pbt.Sub[chainCase]{Name: "envelope-chains", Weight: 2, Gen: genChain, Check: checkChain})
+}
+
+// ---------------------------------------------------------------------------------------------
+// chains through a custom TsigProvider whose MACs are longer than any HMAC (the TsigProvider
+// interface exists for GSS-TSIG and the like): every envelope is signed over the previous -
+// long - MAC; generation and verification go through the provider entry points, the digest input
+// handed to the provider must be the RFC 8945 one.
+
+type longProvider struct {
+	secret []byte
+	extra  int
+	seen   *[][]byte // digest inputs handed to Generate, in order
+}
+
+func (p longProvider) mac(msg []byte) []byte {
+	h := hmac.New(sha256.New, p.secret)
+	h.Write(msg)
+	m := h.Sum(nil)
+	for len(m) < 32+p.extra {
+		x := sha256.Sum256(m)
+		m = append(m, x[:]...)
+	}
+	return m[:32+p.extra]
+}
+
+func (p longProvider) Generate(msg []byte, t *dns.TSIG) ([]byte, error) {
+	*p.seen = append(*p.seen, append([]byte(nil), msg...))
+	return p.mac(msg), nil
+}
+
+func (p longProvider) Verify(msg []byte, t *dns.TSIG) error {
+	got, err := hex.DecodeString(t.MAC)
+	if err != nil || !hmac.Equal(got, p.mac(msg)) {
+		return dns.ErrSig
+	}
+	return nil
+}
+
+type longCase struct {
+	Msgs    []msgspec.Spec
+	KeyName string
+	Secret  []byte
+	Extra   int // MAC length = 32 + Extra
+	ReqMAC  []byte
+	Fudge   uint16
+	Time    uint64
+}
+
+func checkLongMAC(c longCase) error {
+	n := len(c.Msgs)
+	keyL, e := labelsOf(c.KeyName)
+	if n < 1 || n > 6 || e != nil || c.Extra < 0 || c.Extra > 2000 || c.Fudge < 16 || c.Time <= uint64(c.Fudge)+16 || c.Time >= 1<<47 {
+		return nil
+	}
+	pbt.Note([]byte(fmt.Sprintf("%v|%s|%x|%d|%x|%d", c.Msgs, c.KeyName, c.Secret, c.Extra, c.ReqMAC, c.Time)), c.Extra > 32 || len(c.ReqMAC) > 64,
+		fmt.Sprintf("envelopes=%d", n), fmt.Sprintf("mac-octets=%s", map[bool]string{true: ">64", false: "<=64"}[32+c.Extra > 64]), fmt.Sprintf("reqmac>64=%v", len(c.ReqMAC) > 64))
+	var seen [][]byte
+	prov := longProvider{secret: c.Secret, extra: c.Extra, seen: &seen}
+	algL := ref.Labels{[]byte("long-mac"), []byte("example")}
+	prev := c.ReqMAC
+	for i := 0; i < n; i++ {
+		spec := c.Msgs[i]
+		if spec.Rcode&0xF == dns.RcodeNotAuth {
+			spec.Rcode = 0 // NOTAUTH is reported as ErrAuth by design, see checkTsig
+		}
+		m := spec.Build()
+		packed, perr := spec.Build().Pack()
+		if perr != nil {
+			return nil
+		}
+		m.SetTsig(c.KeyName, "long-mac.example.", c.Fudge, int64(c.Time)+int64(i))
+		out, mac, err := dns.TsigGenerateWithProvider(m, prov, hex.EncodeToString(prev), i > 0)
+		if err != nil {
+			return pbt.Errf("TsigGenerateWithProvider of envelope %d failed: %v (previous MAC %d octets, provider MACs %d octets)", i, err, len(prev), 32+c.Extra)
+		}
+		t := &ref.Tsig{KeyName: keyL, Class: ref.ClassANY, Algorithm: algL, TimeSigned: c.Time + uint64(i), Fudge: c.Fudge, OrigID: m.Id}
+		want := ref.TsigDigestInput(prev, packed, t, i > 0)
+		if len(seen) != i+1 || !bytes.Equal(seen[i], want) {
+			return pbt.Errf("envelope %d: the octets handed to TsigProvider.Generate are not the RFC 8945 digest input (previous MAC %d octets; first difference at octet %d of %d/%d)", i, len(prev), firstDiff(seen[len(seen)-1], want), len(seen[len(seen)-1]), len(want))
+		}
+		macB, _ := hex.DecodeString(mac)
+		if !bytes.Equal(macB, prov.mac(want)) {
+			return pbt.Errf("envelope %d: returned MAC is not the provider's MAC of the digest input", i)
+		}
+		if verr := dns.VerifTsigVerifyAt(append([]byte(nil), out...), prov, hex.EncodeToString(prev), i > 0, c.Time+uint64(i)); verr != nil {
+			return pbt.Errf("envelope %d signed through a provider with %d-octet MACs (previous MAC %d octets) does not verify: %v", i, 32+c.Extra, len(prev), verr)
+		}
+		if len(prev) > 0 {
+			bad := append([]byte(nil), prev...)
+			bad[len(bad)-1] ^= 1
+			if dns.VerifTsigVerifyAt(append([]byte(nil), out...), prov, hex.EncodeToString(bad), i > 0, c.Time+uint64(i)) == nil {
+				return pbt.Errf("envelope %d verifies with the last octet of the %d-octet previous MAC changed", i, len(prev))
+			}
+		}
+		prev = macB
+	}
+	return nil
+}
+
+func genLongMAC(t *rapid.T) longCase {
+	c := longCase{}
+	for i, n := 0, rapid.IntRange(1, 4).Draw(t, "n"); i < n; i++ {
+		c.Msgs = append(c.Msgs, msgspec.Gen(t, msgspec.Opts{MaxSmall: 2}))
+	}
+	c.KeyName = wm.EscName(gen.Name(t, gen.NameOpts{MaxLabs: 3, MaxLabel: 8, Plain: true}))
+	c.Secret = genSecret(t, "secret")
+	c.Extra = rapid.SampledFrom([]int{0, 1, 32, 33, 48, 168, 968}).Draw(t, "extra")
+	if rapid.Bool().Draw(t, "hasreq") {
+		nr := rapid.SampledFrom([]int{16, 64, 65, 100, 1000}).Draw(t, "reqlen")
+		c.ReqMAC = rapid.SliceOfN(rapid.Byte(), nr, nr).Draw(t, "reqmac")
+	}
+	c.Fudge = rapid.Uint16Range(16, 65535).Draw(t, "fudge")
+	c.Time = rapid.Uint64Range(uint64(c.Fudge)+17, 1<<40).Draw(t, "time")
+	return c
+}
+
+func init() {
+	pbt.Register(pbt.Sub[longCase]{Name: "provider-long-macs", Weight: 1, Gen: genLongMAC, Check: checkLongMAC})
 }
